@@ -16,7 +16,7 @@ def o4_versions_of_tracked_paths_kept(steps, cfg, history):
     for st in steps:
         c = st['cmd']
         pre, post = st['pre'], st['post']
-        if pre is None or post is None or st['rc'] not in (0, 1) or rc.is_force(c) or c['op'] in ('write', 'delete', 'emptydir', 'link'):
+        if pre is None or post is None or st['rc'] not in (0, 1) or rc.is_force(c) or c['op'] in ('write', 'delete', 'emptydir', 'link', 'relink'):
             continue
         targets = set(c.get('targets', [])) if c['op'] in ('remove', 'untrack') else set()
         alive = {r['entity'] for r in post.recs.values()}
@@ -123,6 +123,39 @@ def shared_version_histories(seed, n):
     import c05
     return [(f'c04-{name}', cfg, [c for c in h if not c.get('force') or c['op'] == 'recheck'])
             for name, cfg, h in c05.sharing_histories(seed * 7 + 4, n)]
+
+
+def respelled_link_histories(seed, n):
+    """Paths tracked with the symlink method (by option or by configuration) whose link the USER has written again with another
+    spelling of the SAME target (repo_harness.relink: relative, through a second name of the repository directory, through an
+    intermediate link outside the repository, with a `/./` component), optionally after a second version was committed; then
+    `carry-in --force` / `track --force` of it (alone, or together with a sibling that shares the object), then recheck, delete,
+    recheck.  The link still is a link to the cached copy: a forced re-commit has nothing to replace, the committed version stays
+    in the cache (o1 `object-lost-by-force`) and every commit stays restorable (restore probe).  XvcRepo/Props/C04Resolve.lean."""
+    import repo_harness as rh
+    rng = random.Random(f'c04-respelled-links-{seed}')
+    out = []
+    for i in range(n):
+        e = rng.choice(['txt', 'bin', ''])
+        nm = lambda s: s + ('.' + e if e else '')
+        a, b = nm(rng.choice(['a', 'd/a', 'd/e/a', 'ünï/a'])), nm('d/b')
+        by_config = rng.random() < 0.3
+        cfg = {'algo': rng.choice([0, 0, 1, 2, 3]), 'method': 'symlink' if by_config else rng.choice(['copy', 'hardlink', 'reflink']), 'tob': 'auto'}
+        tm = {} if by_config else {'method': 'symlink'}
+        X, Y = [bytes(f'{t}-respelled-{i}-{rng.randint(0, 999)}\n', 'ascii') + (b'\x00' if rng.random() < 0.3 else b'') for t in 'XY']
+        np_ = lambda: rng.random() < 0.5
+        h = [W(a, X), W(b, X if rng.random() < 0.4 else Y), T([a, b], no_parallel=np_(), **tm)]
+        if rng.random() < 0.3:
+            h += [W(a, Y + b'second version\n'), CI([a], no_parallel=np_())]
+        kind = rh.RELINK_KINDS[i % len(rh.RELINK_KINDS)]
+        h.append({'op': 'relink', 'path': a, 'kind': kind, 'n': i})
+        if rng.random() < 0.25:
+            h.append({'op': 'relink', 'path': b, 'kind': rng.choice(rh.RELINK_KINDS), 'n': i + 1000})
+        tg = rng.choice([[a], [a], [a, b], [b, a]])
+        h.append(CI(tg, force=True, no_parallel=True) if rng.random() < 0.75 else T(tg, force=True, no_parallel=True))
+        h += [RC([a, b], no_parallel=np_()), {'op': 'delete', 'path': a}, RC([a, b], no_parallel=np_())]
+        out.append((f"respelled-link-{kind}-{i}", cfg, h))
+    return out
 
 
 # ------------------------------------------------------------------------------------------------
@@ -265,8 +298,8 @@ def run(chk):
         only_version_stream(chk, col, no)
         col.tie(chk, chk.repo_ctx['model'])
         chk.extra['rule'] = chk.extra.get('rule', '') + RULE_EXTRA.format(n=n, nf=n // 2, no=no)
-    return rc.run_property(chk, 'C04', oracles, restore=RESTORE, nq=240, extra_corpus=restore_histories(chk.seed, n) + force_histories(chk.seed, n // 2) + shared_version_histories(chk.seed, n // 2),
-                           before_finish=before_finish, extra_props=['XvcRepo.Props.C04Only', 'XvcRepo.Props.C04Shared'])
+    return rc.run_property(chk, 'C04', oracles, restore=RESTORE, nq=240, extra_corpus=restore_histories(chk.seed, n) + force_histories(chk.seed, n // 2) + shared_version_histories(chk.seed, n // 2) + respelled_link_histories(chk.seed, n // 2),
+                           before_finish=before_finish, extra_props=['XvcRepo.Props.C04Only', 'XvcRepo.Props.C04Shared', 'XvcRepo.Props.C04Resolve'])
 
 
 def replay(chk, data):
